@@ -150,17 +150,122 @@ def parseOp (ws : List String) : Option (Op × Option Nat) :=
     | _, _ => none
   | _ => none
 
-def stepLine (s : State) (line : String) : State × List String :=
-  match words line with
-  | ["new"] => (State.init, ["new"])
-  | ws =>
-    match parseOp ws with
-    | none => (s, ["bad-op"])
-    | some (op, dc) =>
-      let (s', o) := step s op
-      let d := match dc with
-        | some c => showCluster s' c
-        | none => " ".intercalate ((List.range 4).map (showCluster s'))
-      (s', [showOut o ++ " | " ++ d])
+/-! ### composite ops of the black-box run (`backends_bb`)
 
-def main : IO Unit := runDriver stepLine State.init
+One `req` line is what one proxied HTTP request makes the worker do, as a
+sequence of ordinary model ops (so every theorem about `run` applies to it):
+selection (`sticky` or `select`), `inc` on the selected backend (`try_connect`),
+then either `succeed` (+ `dec` when the client connection is closed again) or —
+for an address that refuses connections (addresses >= `deadFrom`) — `fail` with
+the deterministic first waits, `dec`, and a new attempt, at most `CONN_RETRIES`
+times. A `fail` that would draw a random wait (third consecutive failure) makes
+the rest of the case `nondet`.
+
+  req <c> <cookie|-> <hold|close>      -> `some id@addr` | `none`
+  drop <k>                             close the k-th held client connection
+  wait                                 one back-off second passes
+-/
+
+def deadFrom : Nat := 4
+def connRetries : Nat := 3
+
+structure DState where
+  s : State
+  /-- held connections: cluster, address, id; `none` = its backend was removed meanwhile -/
+  held : List (Option (Nat × Nat × Nat))
+  nondet : Bool
+
+def indexOf (s : State) (c : Nat) (b : Backend) : Option Nat :=
+  match s.get c with
+  | none => none
+  | some l => (l.backends.findIdx? (fun x => x.addr == b.addr && x.id == b.id))
+
+def bbEnv : Env := { key := none, score := fun _ _ _ => 0, pref := [], rnd := 0 }
+
+def outChoices : Out → List Backend
+  | .sel l _ _ => l
+  | _ => []
+
+/-- `fuel` attempts left; returns the new state, the result text, whether a
+    connection stays open on `(addr, id)`, and the nondeterminism flag -/
+def reqLoop (c : Nat) (cookie : Option Nat) (hold : Bool) :
+    Nat → State → State × String × Option (Nat × Nat × Nat) × Bool
+  | 0, s => (s, "none", none, false)
+  | fuel + 1, s =>
+    let r := match cookie with
+      | some st => step s (.sticky c st bbEnv)
+      | none => step s (.select c bbEnv)
+    match outChoices r.2 with
+    | [] => (r.1, "none", none, false)
+    | b :: rest =>
+      -- a policy with several possible results is outside the black-box run
+      if !rest.isEmpty then (r.1, "nondet", none, true) else
+      match indexOf r.1 c b with
+      | none => (r.1, "bad-state", none, true)
+      | some i =>
+        let s1 := (step r.1 (.inc c i)).1
+        if b.addr ≥ deadFrom then
+          let takes := b.retry.okay s1.now
+          if takes && b.retry.tries ≥ 2 then (s1, "nondet", none, true) else
+          let s2 := (step s1 (.fail c i 1)).1
+          let s3 := (step s2 (.dec c i)).1
+          reqLoop c cookie hold fuel s3
+        else
+          let s2 := (step s1 (.succeed c i)).1
+          if hold then (s2, "some " ++ bref b, some (c, b.addr, b.id), false)
+          else ((step s2 (.dec c i)).1, "some " ++ bref b, none, false)
+
+def dropHeld (d : DState) (k : Nat) : DState × String :=
+  match d.held[k]? with
+  | none => (d, "absent")
+  | some h =>
+    let held := d.held.eraseIdx k
+    match h with
+    | none => ({ d with held := held }, "ok")
+    | some (c, a, id) =>
+      match d.s.get c with
+      | none => ({ d with held := held }, "ok")
+      | some l =>
+        match l.backends.findIdx? (fun x => x.addr == a && x.id == id) with
+        | none => ({ d with held := held }, "ok")
+        | some i => ({ d with s := (step d.s (.dec c i)).1, held := held }, "ok")
+
+def stepLine (d : DState) (line : String) : DState × List String :=
+  match words line with
+  | ["new"] => ({ s := State.init, held := [], nondet := false }, ["new"])
+  | ws =>
+    if d.nondet then (d, ["nondet"]) else
+    match ws with
+    | ["req", c, ck, h] =>
+      match c.toNat?, natOpt ck, (if h = "hold" then some true else if h = "close" then some false else none) with
+      | some c, some ck, some hold =>
+        let (s', res, keep, nd) := reqLoop c ck hold connRetries d.s
+        let held := match keep with
+          | some k => d.held ++ [some k]
+          | none => d.held
+        ({ s := s', held := held, nondet := nd }, [res ++ " | " ++ showCluster s' c])
+      | _, _, _ => (d, ["bad-op"])
+    | ["drop", k] =>
+      match k.toNat? with
+      | some k => let (d', r) := dropHeld d k; (d', [r ++ " | " ++ showCluster d'.s 0])
+      | none => (d, ["bad-op"])
+    | ["wait"] =>
+      let s' := (step d.s (.tick 1)).1
+      ({ d with s := s' }, ["ok | " ++ showCluster s' 0])
+    | _ =>
+      match parseOp ws with
+      | none => (d, ["bad-op"])
+      | some (op, dc) =>
+        let (s', o) := step d.s op
+        -- a removed address orphans the connections held on it
+        let held := match op with
+          | .remove c a => d.held.map (fun h => match h with
+              | some (c', a', id) => if c' == c && a' == a then none else some (c', a', id)
+              | none => none)
+          | _ => d.held
+        let dd := match dc with
+          | some c => showCluster s' c
+          | none => " ".intercalate ((List.range 4).map (showCluster s'))
+        ({ d with s := s', held := held }, [showOut o ++ " | " ++ dd])
+
+def main : IO Unit := runDriver stepLine { s := State.init, held := [], nondet := false }
